@@ -151,6 +151,8 @@ def run(ctx):
     grule = GzRule()
     outs, it = run_function(m, gz, grule, f"{RS}.GzipDecoder", seeds={("self", "_state"): AV("unk", sym="state")})
     OTHER = repr(("enum", "OTHER_MEMBERS"))
+    gsc = m.classes.get(f"{RS}.GzipDecoderState")
+    members = [t_.id for n_ in (gsc.node.body if gsc is not None else []) if isinstance(n_, ast.Assign) for t_ in n_.targets if isinstance(t_, ast.Name)]
     seen_e = set()
     n_err = 0
     for o in outs:
@@ -165,6 +167,17 @@ def run(ctx):
             tol = o.st.ts.get(("cmp", "state", "==", OTHER))
             if tol is None and o.st.ts.get(("cmp", "state", "!=", OTHER)) is not None:
                 tol = not o.st.ts.get(("cmp", "state", "!=", OTHER))
+            if tol is None and members:
+                # the state is one of the enumeration's members: every other member excluded on the path leaves OTHER_MEMBERS
+                def _is(x_):
+                    e_ = o.st.ts.get(("cmp", "state", "==", repr(("enum", x_))))
+                    n_ = o.st.ts.get(("cmp", "state", "!=", repr(("enum", x_))))
+                    return e_ if e_ is not None else (None if n_ is None else not n_)
+                others = [x_ for x_ in members if x_ != "OTHER_MEMBERS"]
+                if "OTHER_MEMBERS" in members and others and all(_is(x_) is False for x_ in others):
+                    tol = True
+                elif any(_is(x_) is True for x_ in others):
+                    tol = False
         kind = o.kind if o.kind != "raise" else "raise:" + str(o.val.val)
         key = (tol, kind)
         if key in seen_e:
